@@ -324,7 +324,9 @@ Block == /\ height < MaxHeight
 -----------------------------------------------------------------------------
 (* The HTLCs the model checker sends: amounts around the value, totals     *)
 (* matching / mismatching / too low, right / other / nobody's / no         *)
-(* address, expiry at the required margin -1 / 0 / +1.                     *)
+(* address, expiry at the required margin -1 / 0 / +1 (AMP: -1 / 0, totals *)
+(* V and V+1, both sets, good and bad shares), keysend with a good or bad  *)
+(* preimage.  AMP / keysend payloads only when such an invoice exists.     *)
 ExpOf(k, m) == height + Need(k) + m
 HasKind(x) == kinds[1] = x \/ kinds[2] = x
 Params(c) ==
